@@ -77,6 +77,15 @@ def spec_resolve(recipe, op_key, scope):
         algorithm_manager.check_op_quantization_config(alg, op_key, cfg)
       except (ValueError, KeyError):
         continue
+      # independent NECESSARY condition for "the op supports the config" (the
+      # runtime's contract, not the library's policy table): activations are
+      # quantized per tensor -- no TFLite kernel takes per-channel activations;
+      # such a config is unsupported for every operator unless the caller
+      # switched the checks off
+      a = cfg.activation_tensor_config
+      if a is not None and not cfg.skip_checks and \
+          str(getattr(a.granularity, 'value', a.granularity)) != 'TENSORWISE':
+        continue
     res = (alg, cfg)
   return res
 
@@ -660,6 +669,22 @@ def main():
       stats = gr.own_stats(mb, gg.random_inputs(mb, rng, 1))
       yield mb, qt, stats, desc, dict(info, real_stats=True, directed='constant-read-by-unknown-op')
 
+  def directed_unsupported_star(n):
+    """a '*' rule whose config NO operator supports (per-channel activations; a
+    '*' rule is not validated when it is added): every operator must resolve to
+    no-quantize and stay untouched (C03)"""
+    for _ in range(n):
+      mb, info = gg.gen_model(rng, n_subgraphs=1, max_ops=rng.choice([1, 2, 4]),
+                              op_weights=['FULLY_CONNECTED', 'CONV_2D', 'ADD', 'MUL', 'TANH', 'RESHAPE'])
+      qt = quantizer.Quantizer(bytearray(mb))
+      ncfg = gr.named_configs()
+      desc = gr.apply_rules(qt, [('.*', '*', ncfg['a8cw8'][0], 'a8cw8'),
+                                 ('.*', 'INPUT', ncfg['nq'][0], 'nq'), ('.*', 'OUTPUT', ncfg['nq'][0], 'nq')])
+      if len(desc) < 3:
+        continue
+      stats = gr.own_stats(mb, gg.random_inputs(mb, rng, 1))
+      yield mb, qt, stats, desc, dict(info, real_stats=True, directed='unsupported-config-through-star-rule')
+
   def directed_same_name_sharers(n):
     """constants tied across subgraphs whose tensors ALSO carry the same name
     (the layer exported under two signatures keeps its variable name) x one
@@ -706,7 +731,8 @@ def main():
       directed_respec(200 if tier == 'thorough' else 20),
       directed_same_name_sharers(300 if tier == 'thorough' else 30),
       directed_zp0(300 if tier == 'thorough' else 30),
-      directed_unknown_reader(100 if tier == 'thorough' else 12)):
+      directed_unknown_reader(100 if tier == 'thorough' else 12),
+      directed_unsupported_star(60 if tier == 'thorough' else 8)):
     dist['cases'] += 1
     if info.get('directed'):
       dist['directed:' + info['directed']] += 1
